@@ -32,9 +32,9 @@ REACH = [
     "insights/client/apps/ansible/playbook_verifier/__init__.py::load_playbook_yaml",
 ]
 PLAN = {
-    "quick": {"shards": 8, "cases": 3000, "timeout_s": 900, "min_evaluations": 20000,
-              "min_counters": {"digest_pairs_compared": 20000, "effective_edits": 12000, "excluded_only_edits": 2500, "crafted_edits": 3000,
-                               "pairs_through_yaml_loader": 3000, "error_clauses_checked": 2500}},
+    "quick": {"shards": 8, "cases": 6000, "timeout_s": 900, "min_evaluations": 40000,
+              "min_counters": {"digest_pairs_compared": 40000, "effective_edits": 24000, "excluded_only_edits": 5000, "crafted_edits": 6000,
+                               "pairs_through_yaml_loader": 6000, "error_clauses_checked": 5000}},
     "thorough": {"shards": 16, "cases": 70000, "timeout_s": 3300, "min_evaluations": 1000000,
                  "min_counters": {"digest_pairs_compared": 1000000}},
 }
